@@ -109,11 +109,11 @@ func genBloomState(r *rand.Rand) bloomState {
 }
 
 func genReceiptList(r *rand.Rand, n int, exec bool) []*types.Receipt {
-	out := make([]*types.Receipt, n)
-	for i := range out {
-		out[i] = genReceipt(r, exec)
+	l := make([]*types.Receipt, n)
+	for i := range l {
+		l[i] = genReceipt(r, exec)
 	}
-	return out
+	return l
 }
 
 // ---------------------------------------------------------------------------------------------
@@ -279,7 +279,7 @@ func compareReceipts(a *acc, tag string, ver int32, want, got []*types.Receipt) 
 						if evTable[ef.Name] {
 							a.ev++
 							if !eq {
-								a.viol("rt/"+tag+"/"+fm+"/field=Events[]."+ef.Name, fmt.Sprintf("receipt %d event %d field %s: wrote %v, read back %v (receipt address %x, event address %x)", i, j, ef.Name, we.FieldByIndex(ef.Index).Interface(), ge.FieldByIndex(ef.Index).Interface(), want[i].ContractAddress, want[i].Events[j].ContractAddress))
+								a.viol("rt/"+tag+"/"+fm+"/field=Events[]."+ef.Name, fmt.Sprintf("receipt %d event %d field %s: wrote %s, read back %s (receipt address %x, event address %x)", i, j, ef.Name, show(we.FieldByIndex(ef.Index)), show(ge.FieldByIndex(ef.Index)), want[i].ContractAddress, want[i].Events[j].ContractAddress))
 							}
 						} else {
 							noteOptional("store/"+fm+"/Events[]."+ef.Name, !eq)
@@ -292,7 +292,7 @@ func compareReceipts(a *acc, tag string, ver int32, want, got []*types.Receipt) 
 			if must {
 				a.ev++
 				if !eq {
-					a.viol("rt/"+tag+"/"+fm+"/field="+f.Name, fmt.Sprintf("receipt %d field %s under version %d: wrote %v, read back %v", i, f.Name, ver, w.FieldByIndex(f.Index).Interface(), g.FieldByIndex(f.Index).Interface()))
+					a.viol("rt/"+tag+"/"+fm+"/field="+f.Name, fmt.Sprintf("receipt %d field %s under version %d: wrote %s, read back %s", i, f.Name, ver, show(w.FieldByIndex(f.Index)), show(g.FieldByIndex(f.Index))))
 				}
 			} else {
 				noteOptional("store/"+fm+"/"+f.Name, !eq)
@@ -364,7 +364,7 @@ func caseRcptRT(c *vf.Ctx, i int) {
 		dbMu.Unlock()
 	}
 	if i < 3 {
-		c.Sample(map[string]interface{}{"kind": "receipts-roundtrip", "setting": vs.Name, "version": vs.Ver, "receipts": n, "stored_bytes": len(b), "root": vf.Hex(root0)})
+		out.Sample(map[string]interface{}{"kind": "receipts-roundtrip", "setting": vs.Name, "version": vs.Ver, "receipts": n, "stored_bytes": len(b), "root": vf.Hex(root0)})
 	}
 }
 
@@ -380,7 +380,7 @@ func runReceiptsDB(c *vf.Ctx) {
 	dir := c.Scratch() + "/rcptdb"
 	cdb := chain.NewChainDB()
 	if err := cdb.Init("memorydb", dir, nil); err != nil {
-		c.Inconclusive("ChainDB.Init: " + err.Error())
+		out.Inconclusive("ChainDB.Init: " + err.Error())
 		return
 	}
 	for lo := 0; lo < len(entries); lo += 50 {
@@ -393,7 +393,7 @@ func runReceiptsDB(c *vf.Ctx) {
 	cdb.Close()
 	cdb = chain.NewChainDB()
 	if err := cdb.Init("memorydb", dir, nil); err != nil {
-		c.Inconclusive("ChainDB.Init (reopen): " + err.Error())
+		out.Inconclusive("ChainDB.Init (reopen): " + err.Error())
 		return
 	}
 	defer cdb.Close()
